@@ -208,6 +208,7 @@ class ProbeNode(BaseNode):
         self.use_callback = use_callback  # io_callback (works jitted and un-jitted)
         self.delay_from_params = []  # input names whose delay (ticks) is the node's param p
         self.delays_override = {}  # input name -> delay (s) returned by init_delays (trainable delays, C10)
+        self.consume_inputs = False  # the step function hands back "consumed" inputs (all seq = -1): legal; the compiled runtime rebuilds the windows
         self.ts_bump = 0.0  # the step function time-stamps the step state it returns (ts + bump): legal, ignored under the simulated clock
 
     def init_delays(self, rng=None, graph_state=None):
@@ -254,6 +255,8 @@ class ProbeNode(BaseNode):
         new_ss = ss.replace(rng=new_rng, state=ProbeState(h=new_h))
         if self.ts_bump:
             new_ss = new_ss.replace(ts=ss.ts + self.ts_bump)
+        if self.consume_inputs and ss.inputs is not None:
+            new_ss = new_ss.replace(inputs=type(ss.inputs)({k: v.replace(seq=jnp.full_like(v.seq, -1)) for k, v in ss.inputs.items()}))
         return new_ss, out
 
 
